@@ -785,6 +785,7 @@ impl LdapConnAsync {
                                     self.searchmap.remove(&msgid);
                                     let mut msgmap = self.msgmap.lock().expect("msgmap mutex (abandon)");
                                     msgmap.1.remove(&id);
+                                    msgmap.1.remove(&msgid);
                                 },
                                 LdapOp::Unbind => {
                                     if let Err(e) = self.stream.get_mut().shutdown().await {
